@@ -5,6 +5,7 @@ use serde_json::{Value, json};
 
 use crate::pool::{Pool, Resp};
 
+pub mod c01;
 pub mod c07;
 pub mod c08;
 pub mod c10;
@@ -14,6 +15,7 @@ pub mod c20;
 
 pub fn worker(prop: &str, case: &Value) -> Value {
     match prop {
+        "C01" => c01::worker(case),
         "C07" => c07::worker(case),
         "C08" => c08::worker(case),
         "C10" => c10::worker(case),
@@ -26,6 +28,7 @@ pub fn worker(prop: &str, case: &Value) -> Value {
 
 pub fn drive(prop: &str, tier: &str) -> i32 {
     match prop {
+        "C01" => c01::drive(tier),
         "C07" => c07::drive(tier),
         "C08" => c08::drive(tier),
         "C10" => c10::drive(tier),
